@@ -70,6 +70,18 @@ def classify (ct : String) (body sent : List UInt8) : Body :=
         (if !sent.isEmpty && !(body.take 8).isEmpty && (body.take 8).isPrefixOf sent then .backendThenError else .ollaText)
       else .other
 
+def describe : Body → String
+  | .backend true => "the backend's body"
+  | .backend false => "a truncated backend body"
+  | .backendThenError => "part of the backend's body followed by an Olla error text"
+  | .ollaText => "a plain-text Olla error"
+  | .anthropicError => "an Anthropic error object"
+  | .anthropicMessage => "a translated Anthropic message"
+  | .sse true => "an Anthropic event stream with content"
+  | .sse false => "an EMPTY Anthropic event stream (message_start … message_delta … message_stop, no content block)"
+  | .empty => "an empty body"
+  | .other => "an unrecognised body"
+
 def noResponseKinds : List String := ["refuse", "reset0", "close0", "garbage"]
 
 def handle (j : Json) : IO Unit := do
@@ -148,7 +160,7 @@ def handle (j : Json) : IO Unit := do
         | .exhausted => "exhausted" | .selectFailed => "select-failed" | .noEndpoints => "no-endpoints"
       s!"{cls}:{o}"
   let note := if spec && agree then "" else
-    s!"fault {fault} route {routeS} stream {stream} n {n} backend-status {bStatus}: client got {cStatus} '{ct}' {reprStr seen.body} ({body.length} bytes, {ms} ms, err '{cErr}', mode '{jstr (jget impl "mode")}'), contacted {contacted}, offline {offline}; model {out.status} {reprStr out.ctype} {reprStr out.body}, contacted {mContacted}, offline {mOffline}, mode '{mMode}'"
+    s!"engine {jstr (jget sc "engine")}, {n} endpoint(s), fault '{fault}' (backend status {bStatus}, {jstr (jget sc "err_body")} error body), route {routeS}, stream={stream}: client got {cStatus} '{ct}' with {describe seen.body} ({body.length} bytes, {ms} ms, err '{cErr}', X-Olla-Mode '{jstr (jget impl "mode")}'), backends contacted {contacted}, offline afterwards {offline}; model: {out.status} with {describe out.body}, contacted {mContacted}, offline {mOffline}, mode '{mMode}'"
   emit case agree spec branch sig note
     (Json.mkObj [("status", toJson out.status), ("body", toJson (reprStr out.body)), ("result", toJson (reprStr res))])
 
